@@ -207,6 +207,10 @@ class Check(FormulaCheck):
             m = self.ev('MOD(v_x,v_y)', v_x=bx, v_y=by)
             self.expect('C17/MOD:whole-numbers-exact', finite(m) and Fr(m) == bx % by, x=hex(bx), y=hex(by), got=m if not finite(m) else hex(int(m)), expected=hex(bx % by))
             rec.nt(('bigmod', bx, by))
+            neg = rnd.choice([-1, -2, -0.5, -0.001, -1 / 3.0, -1e-9, -2.5, -170, -0.999999])
+            for fn in ('FACT', 'FACTDOUBLE'):
+                r = self.ev('%s(v_n)' % fn, v_n=neg)
+                self.expect('C17/%s:negative-argument-yields-a-value' % fn, self.is_err(r), n=neg, got=r)
             n = rnd.randint(0, 170)
             frac = rnd.choice([0, 0, 0.5, 0.9])
             r = self.ev('FACT(v_n)', v_n=n + frac)
